@@ -139,7 +139,7 @@ Proof.
     destruct c0; try discriminate.
     + destruct (lim_ok lim); discriminate.
     + destruct (guard_live s g); discriminate.
-    + destruct (c_lru c && Z.leb 0 d)%bool; discriminate.
+    + destruct (c_lru c && Z.leb 0 d)%bool; [|discriminate]. destruct (cutoff_of (s_clock s) d); discriminate.
   - (* resume *) unfold do_resume. destruct (aget a (s_ops s)) as [p|] eqn:Ha; [|discriminate].
     destruct p; try discriminate.
     + apply cs_no_panic; auto; [|intros; eapply do_enter_inv; eauto].
@@ -177,7 +177,7 @@ Proof.
       * exfalso. eapply Hu; eauto.
     + apply cs_no_panic; auto; [|intros; eapply do_scan_inv; eauto].
       intros site'. unfold do_scan. destruct (iter_order c s o); [|discriminate].
-      destruct cutoff; [|discriminate]. destruct (lock_keys s _). discriminate.
+      destruct (lock_keys s _). discriminate.
     + apply cs_no_panic; auto; [|intros; eapply do_stream_enter_inv; eauto].
       intros site'. unfold do_stream_enter. destruct (iter_order c s o); discriminate.
     + apply cs_no_panic; auto; [discriminate|].
@@ -200,15 +200,11 @@ Proof.
       apply cs_no_panic; auto. intros; eapply do_sub_poll_inv; eauto.
     + apply cs_no_panic; auto; [|intros; eapply do_sub_drop_inv; eauto].
       intros site'. unfold do_sub_drop. destruct (aget k subs) as [st|] eqn:Hs; [|discriminate].
-      destruct st; try discriminate.
-      * pose proof (cleanup_no_panic s a (PStreamDrop subs) k) as Hc.
-        destruct (cleanup_ents (s_ents s) k) as [[ents|]|site1]; try discriminate.
-        -- destruct (adel k subs); discriminate.
-        -- exfalso. eapply Hc; eauto; cbn; unfold sub_handles, sub_waits; rewrite Hs; auto.
-      * pose proof (cancel_no_panic c s a (PStreamDrop subs) k) as Hc.
-        destruct (cancel_ents c (s_ents s) a k) as [[ents|]|site1]; try discriminate.
-        -- destruct (adel k subs); discriminate.
-        -- exfalso. eapply Hc; eauto; cbn; unfold sub_handles, sub_waits; rewrite Hs; auto.
+      pose proof (cancel_no_panic c s a (PStreamDrop subs) k) as Hc.
+      destruct st; try discriminate;
+        (destruct (cancel_ents c (s_ents s) a k) as [[ents|]|site1]; try discriminate;
+         [destruct (adel k subs); discriminate
+         |exfalso; eapply Hc; eauto; cbn; unfold sub_handles; rewrite Hs; auto]).
   - unfold do_pollend. destruct (aget a (s_ops s)) as [[]|]; try discriminate. destruct subs; discriminate.
   - unfold do_cancel. destruct (aget a (s_ops s)) as [[]|]; try discriminate.
     + destruct (sh_is_async sh); discriminate.
